@@ -5,7 +5,7 @@ import traceback
 
 import z3
 from vf.core import result, DISCHARGED, VIOLATED, INCONCLUSIVE, VACUOUS, ERROR, fn_ident
-from vf.e1.sym import (Ref, NONE_ID, is_sym, ITE, AND, OR, NOT, EQ, NE, LT, GT, ADD, B, IMPLIES, Unsupported,
+from vf.e1.sym import (ATOMS, Ref, NONE_ID, is_sym, ITE, AND, OR, NOT, EQ, NE, LT, GT, ADD, B, IMPLIES, Unsupported,
                        ite_chain)
 from vf.e1.heap import Universe, Heap
 from vf.e1.interp import Ctx, Frame, call_function
@@ -759,3 +759,177 @@ def replay_redo_bus(rp):
                     probs.append("bit %d: a pin of the outer net moved" % j)
         probs += wellformed.c01_problems(wellformed.closure(list(objs.values())))
         return bool(probs), "_redo_connections: %s" % sorted(set(probs))[:4]
+
+
+# ---- C09: the flatten() driver on pin-free hierarchies decided by the solver ---------------------------------------
+def flatten_driver_job(tier, timeout_ms=300000, i0=None):
+    """flatten(netlist) -- real driver, real _bring_to_top -- on a containment-concrete, PIN-FREE netlist whose
+    instance->definition references are symbolic (uniquified by assumption): afterwards the top holds exactly the leaf
+    occurrences, each named by its slash-joined path and still an instance of its leaf cell; no hierarchical instance
+    remains; the nets of every flattened cell sit in the top under their path names; what is not below the top is
+    untouched; the netlist is well-formed.  (Connection merging is the subject of the _redo_connections lemmas.)"""
+    import spydrnet.flatten as fl
+    t0 = time.time()
+    M.SOLVER_CORE = "euf"
+    name = "C09/flatten{driver,pin-free}"
+    live = dict(Netlist=1, Library=1, Definition=4, Port=0, Cable=2, Wire=0, Instance=4, InnerPin=0, OuterPin=0)
+    u = Universe(live, {}, 3, list_caps={("Library", "_definitions"): 4}, keys=(".NAME",),
+                 atoms=("TOP", "A", "C", "LEAF", "u0", "u1", "v", "n0", "n1", "top"))
+    # TOP(def0){i0,i1} ; A(def1){i2, cable c0} ; C(def2){cable c1} ; LEAF(def3) ; i3 = top instance
+    shape = {("Netlist", 0, "_libraries"): [0], ("Library", 0, "_definitions"): [0, 1, 2, 3],
+             ("Definition", 0, "_children"): [0, 1], ("Definition", 1, "_children"): [2],
+             ("Definition", 1, "_cables"): [0], ("Definition", 2, "_cables"): [1]}
+    pre = Heap.symbolic(u).apply_shape(shape)
+    kn = 0
+    for c, names in (("Definition", ["TOP", "A", "C", "LEAF"]), ("Instance", ["u0", "u1", "v", "top"]), ("Cable", ["n0", "n1"])):
+        for i, nm in enumerate(names):
+            pre.data[c][i][kn] = (True, ATOMS.intern(nm))
+    D = lambda d: u.gid("Definition", d)
+    ref = pre.sc[("Instance", "_reference")]
+    pre.sc[("Instance", "_reference")][3] = D(0)
+    pre.sc[("Netlist", "_top_instance")][0] = u.gid("Instance", 3)
+    if i0 is not None:
+        # cube split: what the first instance under the top instantiates is fixed by the job (1 = A, 2 = C, 3 = LEAF);
+        # the other two references stay symbolic
+        pre.sc[("Instance", "_reference")][0] = D(i0)
+        name += "{i0->%s}" % ["TOP", "A", "C", "LEAF"][i0]
+    heap = pre.copy()
+    ctx = Ctx(heap, M.REAL)
+    M.listeners_none(ctx)
+    ctx.loop_bound = 8
+    ctx.globals_over[("spydrnet.flatten", "mod_name_uid")] = 0
+    ctx.globals_over[("spydrnet.flatten", "unique_number")] = 0
+    fr = Frame(None, True, {})
+    A = pre.type_constraints() + spec.inv_all(pre)
+    A += [OR(EQ(ref[0], D(1)), EQ(ref[0], D(2)), EQ(ref[0], D(3))), OR(EQ(ref[1], D(2)), EQ(ref[1], D(3))),
+          OR(EQ(ref[2], D(2)), EQ(ref[2], D(3)))]
+    # uniquified: the hierarchical cell C has at most one instance
+    cnt = sum([ITE(EQ(ref[i], D(2)), 1, 0) for i in range(3)], 0)
+    A.append(cnt <= 1)
+    A = [B(a) for a in A if a is not True]
+    ctx.path_assumptions = list(A)
+    ctx.prune_infeasible_raises = True
+    try:
+        call_function(ctx, fr, fl.flatten, [Ref(u.gid("Netlist", 0), ("Netlist",))])
+    except Unsupported as e:
+        return [result(name, INCONCLUSIVE, "E1/symheap", detail="Unsupported: %s" % e, wall_s=time.time() - t0)]
+    post = heap
+    I = lambda i: u.gid("Instance", i)
+    reach = {0: True, 1: True, 2: EQ(ref[0], D(1))}
+    leaf = {i: EQ(ref[i], D(3)) for i in range(3)}
+    tl, tel = post.ls[("Definition", "_children")][0]
+    in_top = lambda i: OR(*[AND(LT(k, tl), EQ(tel[k], I(i))) for k in range(len(tel))])
+    goals = {}
+    goals["top-holds-exactly-the-leaf-occurrences"] = \
+        [EQ(in_top(i), AND(reach[i], leaf[i])) for i in range(3)] + \
+        [EQ(tl, sum([ITE(AND(reach[i], leaf[i]), 1, 0) for i in range(3)], 0))] + \
+        [IMPLIES(AND(reach[i], leaf[i]), AND(EQ(post.sc[("Instance", "_reference")][i], D(3)),
+                                             EQ(post.sc[("Instance", "_parent")][i], D(0)))) for i in range(3)]
+    nm = lambda c, i: post.data[c][i][kn]
+    at = ATOMS.intern
+    goals["leaf-occurrences-are-named-by-their-path"] = [
+        AND(nm("Instance", 0)[0], EQ(nm("Instance", 0)[1], at("u0"))), AND(nm("Instance", 1)[0], EQ(nm("Instance", 1)[1], at("u1"))),
+        IMPLIES(AND(reach[2], leaf[2]), AND(nm("Instance", 2)[0], EQ(nm("Instance", 2)[1], at("u0/v")))),
+        IMPLIES(NOT(reach[2]), EQ(nm("Instance", 2)[1], at("v")))]
+    # nets of flattened cells: c0 belongs to A (flattened iff i0 -> A); c1 to C (flattened iff a reachable instance -> C)
+    c_owner = lambda c: post.sc[("Cable", "_definition")][c]
+    c1_by = {0: EQ(ref[0], D(2)), 1: EQ(ref[1], D(2)), 2: AND(reach[2], EQ(ref[2], D(2)))}
+    c1_name = {0: "u0/n1", 1: "u1/n1", 2: "u0/v/n1"}
+    goals["nets-of-flattened-cells-sit-in-the-top-under-their-path-names"] = [
+        IMPLIES(EQ(ref[0], D(1)), AND(EQ(c_owner(0), D(0)), EQ(nm("Cable", 0)[1], at("u0/n0")))),
+        IMPLIES(NOT(EQ(ref[0], D(1))), AND(EQ(c_owner(0), D(1)), EQ(nm("Cable", 0)[1], at("n0")))),
+        IMPLIES(NOT(OR(*c1_by.values())), AND(EQ(c_owner(1), D(2)), EQ(nm("Cable", 1)[1], at("n1"))))] + [
+        IMPLIES(c1_by[i], AND(EQ(c_owner(1), D(0)), EQ(nm("Cable", 1)[1], at(c1_name[i])))) for i in range(3)]
+    goals["what-is-not-below-the-top-is-untouched"] = [
+        IMPLIES(NOT(reach[2]), AND(EQ(post.sc[("Instance", "_parent")][2], D(1)), EQ(post.sc[("Instance", "_reference")][2], ref[2]))),
+        EQ(post.sc[("Instance", "_reference")][3], D(0)), EQ(post.sc[("Netlist", "_top_instance")][0], I(3))]
+    goals["well-formed-afterwards"] = [c for g, cs in spec.inv_groups(post).items() for c in cs]
+    funcs = sorted(fn_ident(f) for f in ctx.funcs_seen)
+    bounds = dict(u.describe(), shape={"%s/%d/%s" % k: v for k, v in shape.items()},
+                  references="i0 in {A, C, LEAF}, i1 in {C, LEAF}, i2 in {C, LEAF}; C instanced at most once (uniquified)",
+                  solver="z3 %s, SAT/EUF core" % z3.get_version_string())
+    ok = [B(NOT(ctx.bound)), B(NOT(ctx.exc))]
+    tw = {"pre_sat": M.check(A, True, 60000)[0], "returns": M.check(A, AND(NOT(ctx.exc), NOT(ctx.bound)), 120000)[0],
+          "two-levels-flattened": M.check(A + ok, AND(EQ(ref[0], D(1)), EQ(ref[2], D(2))), 120000)[0]}
+    if any(v != "sat" for v in tw.values()):
+        return [result(name, VACUOUS, "E1/symheap", twins=tw, bounds=bounds, detail="reachability twin failed: %s %s" % (
+            tw, sorted(set(ctx.bound_why))[:3]))]
+    out = []
+    import os as _os
+    for g, cs in list(goals.items()) + [("never-raises", None)]:
+        oname = name + "/" + g
+        if _os.environ.get("VF_GOAL") and _os.environ["VF_GOAL"] not in g:
+            continue
+        if cs is None:
+            st, dt, mdl = M.check(A + [B(NOT(ctx.bound))], ctx.exc, timeout_ms)
+        else:
+            st, dt, mdl = M.check(A + ok, NOT(AND(*cs)), timeout_ms)
+        if st == "unsat":
+            out.append(result(oname, DISCHARGED, "E1/symheap", queries=1, solver_s=dt, twins=tw, bounds=bounds,
+                              functions=funcs, detail="unsat", wall_s=time.time() - t0, paths=1))
+        elif st != "sat":
+            out.append(result(oname, INCONCLUSIVE, "E1/symheap", detail="solver: %s" % st, bounds=bounds))
+        else:
+            state = replay.heap_to_state(pre, mdl)
+            dbg = {"refs": [replay.mval(mdl, ref[i]) for i in range(3)],
+                   "cables": [(replay.mval(mdl, c_owner(c)), ATOMS.vals.get(replay.mval(mdl, nm("Cable", c)[1])) if isinstance(ATOMS.vals, dict) else ATOMS.vals[replay.mval(mdl, nm("Cable", c)[1])]) for c in range(2)]}
+            rp = {"engine": "E1", "property": "C09", "obligation": oname, "kind": "flatten_driver", "state": state, "debug": str(dbg),
+                  "netlist": u.gid("Netlist", 0)}
+            try:
+                viol, txt = replay_flatten_driver(rp)
+            except Exception:
+                viol, txt = False, "replay crashed: " + traceback.format_exc()[-400:]
+            out.append(result(oname, VIOLATED if viol else ERROR, "E1/symheap", queries=1, solver_s=dt, twins=tw,
+                              bounds=bounds, functions=funcs, replay=rp if viol else None,
+                              detail=txt if viol else "counterexample did not reproduce: " + txt + " | model: " + rp.get("debug", ""),
+                              wall_s=time.time() - t0))
+    return out
+
+
+def replay_flatten_driver(rp):
+    """real flatten on the real netlist; plain-python oracle from an elaboration taken before the call"""
+    from spydrnet.flatten import flatten
+    from vf.e1 import wellformed
+    with replay.listener_config("none"):
+        objs = replay.build(rp["state"])
+        built, _ = replay.abstract(objs)
+        diffs = replay.states_equal(rp["state"], built)
+        if diffs:
+            return False, "built state differs from the model: " + "; ".join(diffs[:3])
+        netlist = objs[rp["netlist"]]
+        top = netlist.top_instance.reference
+        leaves, nets, below = {}, {}, set()
+
+        def walk(defn, prefix):
+            for ch in defn.children:
+                below.add(id(ch))
+                path = prefix + [ch.name]
+                if ch.reference.is_leaf():
+                    leaves["/".join(path)] = ch.reference
+                else:
+                    for cab in ch.reference.cables:
+                        nets["/".join(path + [cab.name])] = cab
+                    walk(ch.reference, path)
+        walk(top, [])
+        outside = {id(o): (o.parent, o.reference, o.name) for o in objs.values()
+                   if type(o).__name__ == "Instance" and id(o) not in below and o is not netlist.top_instance}
+        try:
+            flatten(netlist)
+        except Exception as e:
+            return True, "flatten raised %s: %s" % (type(e).__name__, str(e)[:80])
+        probs = []
+        got = {ch.name: ch.reference for ch in top.children}
+        if set(got) != set(leaves) or len(top.children) != len(leaves):
+            probs.append("top holds instances %s, the leaf occurrences are %s" % (sorted(got), sorted(leaves)))
+        elif any(got[k] is not leaves[k] for k in leaves):
+            probs.append("a leaf occurrence changed its cell type")
+        if any(not ch.reference.is_leaf() for ch in top.children):
+            probs.append("a hierarchical instance remains in the top")
+        top_nets = {c.name for c in top.cables}
+        if not set(nets) <= top_nets:
+            probs.append("nets of flattened cells missing from the top: %s (top has %s)" % (sorted(set(nets) - top_nets), sorted(top_nets)))
+        for o in objs.values():
+            if id(o) in outside and (o.parent, o.reference, o.name) != outside[id(o)]:
+                probs.append("an instance outside the top hierarchy was changed")
+        probs += wellformed.c01_problems(wellformed.closure([netlist] + list(objs.values())))[:2]
+        return bool(probs), "; ".join(probs[:3]) or "flatten satisfied the statement on this netlist"
